@@ -202,3 +202,17 @@ func isBool(info *types.Info, x ast.Expr) bool {
 	b, ok := t.Underlying().(*types.Basic)
 	return ok && b.Info()&types.IsBoolean != 0
 }
+
+// Infeasible returns an edge predicate for cfgq path queries: an edge is
+// infeasible when the branch condition is decided by the assumed atoms and the
+// edge is the other way.
+func Infeasible(info *types.Info, atom func(ast.Expr) (bool, bool)) func(b *cfg.Block, s int) bool {
+	return func(b *cfg.Block, s int) bool {
+		cnd := cfgq.CondOf(b)
+		if cnd == nil || len(b.Succs) != 2 || b.Succs[0].Kind == cfg.KindSwitchCaseBody && !isBool(info, cnd) {
+			return false
+		}
+		v, known := EvalUnder(cnd, atom)
+		return known && ((s == 0) != v)
+	}
+}
